@@ -173,7 +173,7 @@ func checkC02(e *Env) {
 			gate.CallOK("R.version", "signedexchange/version.FromMagicBytes", "slice(alloc:[8]byte,,const:8)"),
 			gate.CallOK("R.sig", "io.ReadFull", "param:r", "make([]byte,call:bigendian.Decode3BytesUint(local:sigLengthBytes))"),
 			gate.CallOK("R.hdr", "io.ReadFull", "param:r", "make([]byte,call:bigendian.Decode3BytesUint(local:headerLengthBytes))"),
-			gate.CallOK("R.decode", "(*signedexchange.Exchange).decodeExchangeHeaders", "*", "call:cbor.NewDecoder(call:bytes.NewReader(make([]byte,call:bigendian.Decode3BytesUint(local:headerLengthBytes))))"),
+			gate.CallOK("R.decode", "(*signedexchange.Exchange).decodeExchangeHeaders", "*", "call:cbor.NewDecoder(call:bytes.NewBuffer(make([]byte,call:bigendian.Decode3BytesUint(local:headerLengthBytes))))"),
 		)
 	}
 
